@@ -86,21 +86,46 @@ def parseGz (s : String) : Option (Option (Bytes × Bytes)) :=
   | [z, p] => do let z ← parseHex z; let p ← parseHex p; pure (some (z, p))
   | _ => none
 
-/-- `dec <maxLen> <stream hex> [gz=<zipped>:<plain>]` – decode one frame from the front -/
+def parseChunks (s : String) : Option (List Bytes) :=
+  if s == "-" then some [] else (s.splitOn ",").mapM parseHex
+
+/-- options after the positional arguments: `gz=<zipped>:<plain>` (gzip oracle),
+    `prev=…` (the message object was used before; the decoder must not care) -/
+def parseOpts (ws : List String) : Option (Option (Bytes × Bytes)) :=
+  ws.foldlM (fun acc w =>
+    if w.startsWith "gz=" then parseGz w
+    else if w.startsWith "prev=" then some acc
+    else none) none
+
+/-- `dec <maxLen> <chunk,chunk,…> [gz=<zipped>:<plain>] [prev=…]` – decode one frame from
+    the front of the stream the chunks form -/
 def cmdDec (ws : List String) : String :=
-  let go (mx : String) (hxs : String) (gz : Option (Bytes × Bytes)) : String :=
-    match mx.toNat?, parseHex hxs with
-    | some mx, some bs =>
+  match ws with
+  | mx :: cs :: opts =>
+    match mx.toNat?, parseChunks cs, parseOpts opts with
+    | some mx, some chunks, some gz =>
+      let bs := chunks.flatten
       match decode ⟨mx, decRegistry gz⟩ bs with
       | .ok (m, rest) => msgStr m (bs.length - rest.length)
       | .error (.tooLong, n) => s!"err tooLong consumed={n}"
       | .error (_, _) => "err"
-    | _, _ => "bad-args"
+    | _, _, _ => "bad-args"
+  | _ => "bad-op"
+
+partial def decAllStr (cfg : Cfg) (bs : Bytes) (acc : List String) : List String :=
+  if bs.isEmpty then (("end" :: acc).reverse) else
+  match decode cfg bs with
+  | .ok (m, rest) => decAllStr cfg rest (msgStr m (bs.length - rest.length) :: acc)
+  | .error _ => ("err" :: acc).reverse
+
+/-- `decall <maxLen> <chunk,chunk,…>` – decode frames until end of input or error -/
+def cmdDecAll (ws : List String) : String :=
   match ws with
-  | [mx, hxs] => go mx hxs none
-  | [mx, hxs, g] => match parseGz g with
-    | some gz => go mx hxs gz
-    | none => "bad-args"
+  | mx :: cs :: opts =>
+    match mx.toNat?, parseChunks cs, parseOpts opts with
+    | some mx, some chunks, some gz =>
+      " | ".intercalate (decAllStr ⟨mx, decRegistry gz⟩ chunks.flatten [])
+    | _, _, _ => "bad-args"
   | _ => "bad-op"
 
 end Rpcx.Driver
